@@ -31,6 +31,18 @@ request, tagged records skipped iff decoys are generated),
 `bad:missed_cleavages_not_a_source` (the naive definition `Sage.C08.specVerdict`; for databases
 too large for the quadratic clauses: sort-based duplicate test and `bad:differs_from_proven_model`, the model
 being proven to satisfy the definition), and in mode 1 only `bad:decoy_protein_not_listed`.
+
+```
+db8t <k> <threads>*k <arguments of db8>
+  | panic
+  | ok <pre> <npep> {peptide}*npep T <k> {<threads> <npep_t> <ndup_t> <nbad_t> <digest_t>}*k
+```
+Block-boundary stream (de-duplication of `reorder_peptides` inside rayon pools of the listed sizes). The model
+supplies `pre` (length of the vector handed to `reorder_peptides`) and the whole database, compared exactly with
+the database of the first pool; every pool must report the model's entry count, no duplicate key, no disorder
+and the digest of the first pool. Verdicts: `bad:duplicate_entry` (own sort-based test on the listed database,
+or `ndup_t > 0` for some pool), `bad:thread_dependent` (entry count or digest differs between pools),
+`bad:not_sorted_by_mass`, `bad:proteins_not_sorted_set`, `bad:differs_from_proven_model`.
 -/
 namespace Sage.C08
 open Sage.Proto
@@ -212,6 +224,51 @@ def handle (op : String) (args impl : List String) : Option Reply :=
           if v != "ok" then v else
           if r.mode == 1 && !r.gen && !clAllListed (contribsUnfiltered cfg targets) out then
             "bad:decoy_protein_not_listed"
+          else "ok"
+      pure (exact model (" ".intercalate impl) spec)
+  | "db8t" => do
+    -- block-boundary stream: `db8t <k> <threads>*k <arguments of db8>`
+    let (threads, rest) ← runPrefix (list nat) args
+    let r ← run request rest
+    let vars : List (C06.Target × F) := (C06.validateVar r.vars).map fun tm => (tm.1, f32b tm.2)
+    let statics : List (C06.Target × F) := (C06.validate r.statics).map fun tm => (tm.1, f32b tm.2)
+    let implR : Option (Nat × List WPep × List (Nat × Nat × Nat × Nat × Nat)) :=
+      run (do
+        kw "ok"; let pre ← nat; let peps ← list wpep; kw "T"
+        let per ← list (do let t ← nat; let n ← nat; let d ← nat; let b ← nat; let h ← nat; pure (t, n, d, b, h))
+        pure (pre, peps, per)) impl
+    let modelDb : Option (Nat × List (DbPep F)) := do
+      let par ← r.enz.toParams
+      let targets ← C05.parse r.tag r.gen (fastaText r.recs)
+      let cfg : Cfg F := { par, tag := r.tag, gen := r.gen, h2o := C06.H2Of, table := C06.tableF, vars, statics,
+                           maxVar := if r.maxVar == 0 then 1 else r.maxVar, lo := f32b r.lo, hi := f32b r.hi }
+      let gs ← groupDigests (fastaDigest cfg.par cfg.tag cfg.gen targets)
+      let pre := digestPeptides cfg gs (targetInserts gs)
+      pure (pre.length, reorder pre)
+    match modelDb with
+    | none => pure (exact "panic" (" ".intercalate impl) "na")
+    | some (pre, db) =>
+      -- the digest of the listed (first) build is the harness' own; every other build must reproduce it
+      let refDigest : Nat := match implR with
+        | some (_, _, (_, _, _, _, h) :: _) => h
+        | _ => 0
+      let per := threads.map fun t => s!"{t} {db.length} 0 0 {refDigest}"
+      let model := s!"ok {pre} {outList renderW (db.map toW)} T {threads.length} {" ".intercalate per}"
+      let spec : String :=
+        match implR with
+        | none => if impl == ["panic"] then "na" else "bad:reply_unreadable"
+        | some (_, peps, per) =>
+          let out := peps.map ofW
+          -- O(n log n) facts evaluated here on the listed database …
+          if !clSorted out then "bad:not_sorted_by_mass" else
+          if !noDupSorted out then "bad:duplicate_entry" else
+          if !clProteinsSorted out then "bad:proteins_not_sorted_set" else
+          -- … and the per-pool facts reported by the harness
+          if per.any (fun x => x.2.2.1 != 0) then "bad:duplicate_entry" else
+          if per.any (fun x => x.2.2.2.1 != 0) then "bad:not_sorted_or_proteins_not_sorted_set" else
+          if per.any (fun x => x.2.1 != out.length || x.2.2.2.2 != refDigest) then "bad:thread_dependent" else
+          if out.length != db.length || !((peps.zip (db.map toW)).all fun (a, b) => sameEntry a b) then
+            "bad:differs_from_proven_model"
           else "ok"
       pure (exact model (" ".intercalate impl) spec)
   | _ => none
